@@ -1,4 +1,5 @@
 import OnetVerif.Model.C10
+import OnetVerif.Shapes
 /-! Property C10 — closing a server is clean and safe under concurrent traffic.
 Only property theorems, witnesses, non-vacuity examples and the lemmas they need. -/
 namespace C10
@@ -854,5 +855,65 @@ example :
 /-- the tree store: two cleaners, one timer fires while `Close` holds the lock — it still ends -/
 example : (tsRun true {} [.arm, .arm, .fire 0, .lock, .unlock, .cleanup 0, .cancel 1, .wait]).close = .returned := by
   decide
+
+/-! ### the code regions the model stands for
+Regenerated from /repo's source on every run (`harness/cmd/astfacts` → `OnetVerif/Shapes.lean`): the
+calls that matter for synchronisation and data flow, the lock regions and (for decision logic) the
+conditions, in source order.  A re-ordering, a dropped call or a changed condition breaks these
+obligations even when no sampled input or schedule shows a difference; the check then searches for
+a failing input. -/
+theorem c10_shape_router_Router_Stop :
+    Shapes.network_router_Router_Stop =
+   ["host.Stop", "r.Unpause", "verifC10Point", "r.Lock", "c.Close", "r.Unlock", "verifC10Point",
+     "wg.Wait", "verifC10Point"] := rfl
+
+theorem c10_shape_router_Router_Start :
+    Shapes.network_router_Router_Start =
+   ["defer:verifC10Point", "r.receiveServerIdentity", "c.Close", "r.isPeerValid", "c.Close",
+     "verifC10Point", "r.registerConnection", "c.Close", "verifC10Point",
+     "r.launchHandleRoutine", "host.Listen"] := rfl
+
+theorem c10_shape_router_Router_registerConnection :
+    Shapes.network_router_Router_registerConnection =
+   ["r.Lock", "defer:r.Unlock", "if:r.isClosed", "return:xerrors.Errorf(\"\",ErrClosed)",
+     "remote.GetID", "if:okc", "remote.GetID", "remote.GetID", "return:nil"] := rfl
+
+theorem c10_shape_router_Router_launchHandleRoutine :
+    Shapes.network_router_Router_launchHandleRoutine =
+   ["r.Lock", "defer:r.Unlock", "if:r.isClosed", "return:xerrors.Errorf(\"\",ErrClosed)",
+     "wg.Add", "go{", "r.handleConn", "}", "return:nil"] := rfl
+
+theorem c10_shape_router_Router_connect :
+    Shapes.network_router_Router_connect =
+   ["host.Connect", "c.Send", "c.Close", "verifC10Point", "r.registerConnection", "c.Close",
+     "verifC10Point", "r.launchHandleRoutine"] := rfl
+
+theorem c10_shape_router_Router_handleConn :
+    Shapes.network_router_Router_handleConn =
+   ["defer{", "c.Close", "c.Rx", "c.Tx", "traffic.updateRx", "traffic.updateTx", "wg.Done",
+     "r.removeConnection", "verifC10Point", "}", "verifC10Point", "c.Remote", "c.Receive",
+     "verifC10Point", "r.Lock", "r.Unlock", "recv:paused", "r.Lock", "r.Unlock", "r.Closed",
+     "r.triggerConnectionErrorHandlers", "r.triggerConnectionErrorHandlers",
+     "r.triggerConnectionErrorHandlers", "verifC10Point", "msgTraffic.updateRx", "r.Dispatch"] := rfl
+
+theorem c10_shape_Server_Close :
+    Shapes.server_Server_Close =
+   ["c.Lock", "send:closeitChannel", "c.Unlock", "Router.Stop", "WebSocket.stop",
+     "overlay.Close", "serviceManager.closeDatabase"] := rfl
+
+theorem c10_shape_treeStorage_Close :
+    Shapes.treestorage_treeStorage_Close =
+   ["ts.Lock", "close:c", "ts.Unlock", "wg.Wait"] := rfl
+
+theorem c10_shape_Overlay_Close :
+    Shapes.overlay_Overlay_Close =
+   ["instancesLock.Lock", "defer:instancesLock.Unlock", "tni.Token", "o.nodeDelete",
+     "treeStorage.Close"] := rfl
+
+theorem c10_shape_Overlay_newTreeNodeInstanceFromToken :
+    Shapes.overlay_Overlay_newTreeNodeInstanceFromToken =
+   ["newTreeNodeInstance", "instancesLock.Lock", "defer:instancesLock.Unlock", "if:o.closed",
+     "tni.closeDispatch", "return:tni", "tok.ID", "return:tni"] := rfl
+
 
 end C10
